@@ -244,6 +244,31 @@ func checkC07(cx *Ctx, r *Report) {
 		if len(sites) == 0 {
 			r.Fail("R-VFG", "ValidateRedirectSignature:octets", w.FnPos(vr), "the redirect verifier is no longer called")
 		} else if _, re := lvf.Deep(ls)["via:url.QueryEscape"]; re {
+			// The recorded finding is exactly "each decoded value is passed through url.QueryEscape and joined by
+			// the parameter names". Anything else done to the rebuilt octets (another rewriting step, other
+			// constants) refuses further conformant signers and is a violation of its own, not the known one.
+			var extra []string
+			for _, l := range lvf.Deep(ls).keys() {
+				switch {
+				case strings.HasPrefix(l, "via:"):
+					switch l {
+					case "via:url.QueryEscape", "via:fmt.Sprintf", "via:concat", "via:strings.Builder", "via:strings.Join":
+					default:
+						extra = append(extra, l)
+					}
+				case strings.HasPrefix(l, "const:"):
+					rest := strings.TrimPrefix(l, "const:")
+					for _, tok := range []string{"SAMLRequest=", "RelayState=", "SigAlg=", "%s", "&", "zero"} {
+						rest = strings.ReplaceAll(rest, tok, "")
+					}
+					if rest != "" {
+						extra = append(extra, l)
+					}
+				}
+			}
+			if len(extra) > 0 {
+				r.Fail("R-VFG", "serviceprovider.(*ServiceProvider).ValidateRedirectSignature#re-encoding:"+strings.Join(extra, ","), w.InstrPos(sites[0]), "the octets verified are rebuilt from the decoded parameter values and rewritten further ("+strings.Join(extra, ", ")+"): besides the signers the plain QueryEscape re-encoding already refuses, signers whose encoding this rewriting changes (e.g. '+' for a space) are refused too")
+			}
 			r.Fail("R-VFG", "serviceprovider.(*ServiceProvider).ValidateRedirectSignature#re-encoding", w.InstrPos(sites[0]), "the octets verified are rebuilt with url.QueryEscape from the decoded parameter values instead of being the raw query substrings received: a conformant signer that percent-encodes differently (lower-case hex, %20 for space) is refused")
 		} else {
 			r.Ok("R-VFG", "serviceprovider.(*ServiceProvider).ValidateRedirectSignature#re-encoding", w.InstrPos(sites[0]), "the verified octets are not re-encoded")
@@ -251,6 +276,10 @@ func checkC07(cx *Ctx, r *Report) {
 	} else {
 		r.Fail("R-VFG", "ValidateRedirectSignature:octets", "", "anchor not found")
 	}
+	// --- every advertised binding reaches its handler: no route matcher that excludes GET or POST ---------------------
+	cx.checkRouteMatchers(r)
+	// --- base64 text is decoded as received, with the standard encoding --------------------------------------------------
+	cx.checkBase64Decoding(r)
 	// --- certificate comparison ---------------------------------------------------------------------------------------
 	nCmp := 0
 	for _, fn := range w.Funcs {
@@ -368,4 +397,154 @@ func (cx *Ctx) isWhitespaceNormalizer(f *ssa.Function) bool {
 		}
 	}
 	return false
+}
+
+// checkBase64Decoding (R-B64): every base64 decoding in the module's request paths uses encoding/base64.StdEncoding
+// (the RFC 4648 alphabet with padding, which also skips the line breaks MIME-style encoders insert) on the text as it
+// was received. Any other Encoding (RawStdEncoding, URLEncoding, Strict) or a rewriting of the text before decoding
+// (trimming padding, removing characters) refuses base64 a conformant peer may send - padded, wrapped, or both.
+func (cx *Ctx) checkBase64Decoding(r *Report) {
+	w := cx.W
+	n := 0
+	for _, fn := range w.Funcs {
+		var lvf *VFlow
+		for _, c := range callsIn(fn) {
+			name := calleeName(c)
+			encIdx, txtIdx := -1, -1
+			switch name {
+			case "(*encoding/base64.Encoding).DecodeString", "(*encoding/base64.Encoding).Decode", "(*encoding/base64.Encoding).AppendDecode":
+				encIdx, txtIdx = 0, 1
+				if name == "(*encoding/base64.Encoding).Decode" {
+					txtIdx = 2
+				}
+			case "encoding/base64.NewDecoder":
+				encIdx = 0
+			default:
+				continue
+			}
+			n++
+			key := w.FuncKey(fn) + ":" + shortCallee(name)
+			args := c.Common().Args
+			std := false
+			if ld, ok := args[encIdx].(*ssa.UnOp); ok && ld.Op == token.MUL {
+				if g, isG := ld.X.(*ssa.Global); isG && g.Pkg != nil && g.Pkg.Pkg.Path() == "encoding/base64" && g.Name() == "StdEncoding" {
+					std = true
+				}
+			}
+			if !std {
+				r.Fail("R-B64", key, w.InstrPos(c), "base64 text of a request is decoded with an encoding other than base64.StdEncoding: padded or line-wrapped base64, which conformant peers send, is refused")
+				continue
+			}
+			if txtIdx >= 0 && txtIdx < len(args) {
+				if lvf == nil {
+					lvf = cx.newVFlow("b64:"+w.FuncKey(fn), fn)
+				}
+				var vias []string
+				for _, l := range lvf.Deep(lvf.Labels(args[txtIdx])).keys() {
+					if strings.HasPrefix(l, "via:") && !harmlessB64Rewrite(lvf.scope, strings.TrimPrefix(l, "via:")) {
+						vias = append(vias, l)
+					}
+				}
+				if len(vias) > 0 {
+					r.Fail("R-B64", key, w.InstrPos(c), "the base64 text is rewritten before it is decoded ("+strings.Join(vias, ", ")+"): text a conformant peer may send (padding, line breaks) no longer decodes")
+					continue
+				}
+			}
+			r.Ok("R-B64", key, w.InstrPos(c), "base64.StdEncoding on the text as received")
+		}
+	}
+	r.Check(n >= 3, "R-B64", "#decode-sites", "", fmt.Sprintf("%d base64 decoding sites", n), fmt.Sprintf("only %d base64 decoding sites found (3 expected: request message, POST signature input, redirect signature value)", n))
+}
+
+// harmlessB64Rewrite: every call of the transformer (by short name) in scope can only remove text that valid base64
+// never contains: a prefix / suffix / replaced string with a character outside the base64 alphabet and padding
+// (PEM armour), a cut set made of such characters only, or a regular expression of white-space classes. Removing
+// '=' or alphabet characters is not harmless.
+func harmlessB64Rewrite(scope map[*ssa.Function]bool, via string) bool {
+	inAlphabet := func(c rune) bool {
+		return c >= 'A' && c <= 'Z' || c >= 'a' && c <= 'z' || c >= '0' && c <= '9' || c == '+' || c == '/' || c == '='
+	}
+	hasOutside := func(s string) bool {
+		for _, c := range s {
+			if !inAlphabet(c) {
+				return true
+			}
+		}
+		return false
+	}
+	allOutside := func(s string) bool {
+		for _, c := range s {
+			if inAlphabet(c) {
+				return false
+			}
+		}
+		return s != ""
+	}
+	found := false
+	for fn := range scope {
+		for _, c := range callsIn(fn) {
+			if shortCallee(calleeName(c)) != via {
+				continue
+			}
+			found = true
+			args := c.Common().Args
+			switch calleeName(c) {
+			case "strings.TrimPrefix", "strings.TrimSuffix":
+				if k, ok := constString(args[1]); !ok || !hasOutside(k) {
+					return false
+				}
+			case "strings.Trim", "strings.TrimLeft", "strings.TrimRight":
+				if k, ok := constString(args[1]); !ok || !allOutside(k) {
+					return false
+				}
+			case "strings.TrimSpace":
+			case "strings.ReplaceAll", "strings.Replace":
+				k, ok := constString(args[1])
+				k2, ok2 := constString(args[2])
+				if !ok || !ok2 || !hasOutside(k) || k2 != "" {
+					return false
+				}
+			case "(*regexp.Regexp).ReplaceAllString":
+				k2, ok2 := constString(args[2])
+				if !ok2 || k2 != "" {
+					return false
+				}
+				// the expression: a package-level regexp.MustCompile of white-space classes
+				pat := ""
+				if ld, isLd := args[0].(*ssa.UnOp); isLd {
+					if g, isG := ld.X.(*ssa.Global); isG {
+						for _, m := range g.Pkg.Members {
+							f, isF := m.(*ssa.Function)
+							if !isF || f.Name() != "init" {
+								continue
+							}
+							for _, st := range callsIn(f) {
+								_ = st
+							}
+							for _, b := range f.Blocks {
+								for _, in := range b.Instrs {
+									if s, isS := in.(*ssa.Store); isS && s.Addr == ssa.Value(g) {
+										if mc, isC := s.Val.(*ssa.Call); isC && calleeName(mc) == "regexp.MustCompile" {
+											pat, _ = constString(mc.Call.Args[0])
+										}
+									}
+								}
+							}
+						}
+					}
+				}
+				if pat == "" {
+					return false
+				}
+				for _, ch := range pat {
+					if !strings.ContainsRune(`\s+*[]rnt `, ch) {
+						return false
+					}
+				}
+			default:
+				return false
+			}
+		}
+	}
+	return found
 }
